@@ -399,7 +399,20 @@ def run_pde(c, rec):
     p = A(c["p"])[: model.domain_dim]
     if c["field_type"] in (None, "geometry_object") and c["map"] is None and which == "Poisson1D":
         p = np.abs(p) + 0.5  # conductivity must be positive
-    fp = np.asarray(model.domain_geometry.par2fun(p), dtype=float)
+    # the documented field representation, composed by the harness: the expansion named by field_type on the domain grid, then the map
+    dgrid = np.asarray(model.domain_geometry.grid, dtype=float)
+    if c["field_type"] == "KL":
+        base_p2f = cuqi.geometry.KLExpansion(dgrid, **c["field_params"]).par2fun
+    elif c["field_type"] == "Step":
+        base_p2f = cuqi.geometry.StepExpansion(dgrid, **c["field_params"]).par2fun
+    else:
+        base_p2f = lambda q: np.asarray(q, dtype=float)
+    fp = np.asarray(base_p2f(p.copy()), dtype=float)
+    if c["map"] == "exp":
+        fp = np.exp(fp)
+    require(close(np.asarray(model.domain_geometry.par2fun(p.copy()), dtype=float), fp, 1e-12),
+            f"{which}: the domain geometry is not the documented field representation (field_type, then map)",
+            field_type=str(c["field_type"]), map=str(c["map"]))
     degenerate = which == "Poisson1D" and (np.any(fp <= 0) or np.min(fp) < 1e-6 * np.max(fp))
     if degenerate:
         # conductivity not positive, or vanishing on part of the domain (6.7e-193 seen): the discrete operator is singular to
